@@ -12,7 +12,8 @@ import re._constants as C  # type: ignore
 import re._parser as P  # type: ignore
 from typing import Dict, FrozenSet, List, Optional, Set, Tuple
 
-OTHER = "￿"  # stands for every character not mentioned in any of the expressions under comparison
+OTHER = "\uffff"  # stands for every non-word character not mentioned in any of the expressions under comparison
+OTHER_W = "\ufffe"  # stands for every word character (\\w) not mentioned
 DIGITS = "0123456789"
 
 
@@ -87,6 +88,10 @@ def literal_chars(pattern: str) -> Set[str]:
     return out
 
 
+def _is_word(c: str) -> bool:
+    return c == OTHER_W or (c != OTHER and (c.isalnum() or c == "_"))
+
+
 def build(pattern: str, universe: FrozenSet[str]) -> NFA:
     nfa = NFA()
 
@@ -105,6 +110,14 @@ def build(pattern: str, universe: FrozenSet[str]) -> NFA:
                     s.update(DIGITS)
                 elif av is C.CATEGORY_NOT_DIGIT:
                     s.update(universe - set(DIGITS))
+                elif av is C.CATEGORY_WORD:
+                    s.update(c for c in universe if _is_word(c))
+                elif av is C.CATEGORY_NOT_WORD:
+                    s.update(c for c in universe if not _is_word(c))
+                elif av is C.CATEGORY_SPACE:
+                    s.update(c for c in universe if c in " \t\n\r\f\v")
+                elif av is C.CATEGORY_NOT_SPACE:
+                    s.update(c for c in universe if c not in " \t\n\r\f\v")
                 else:
                     raise Unsupported(f"character category {av}")
             else:
@@ -175,7 +188,7 @@ def build(pattern: str, universe: FrozenSet[str]) -> NFA:
 
 def witness_of_intersection(p1: str, p2: str, forbidden: str = "") -> Optional[str]:
     """a string in L(p1) ∩ L(p2) that uses no character of ``forbidden``, or None if there is none"""
-    chars = literal_chars(p1) | literal_chars(p2) | set(DIGITS) | {"/", OTHER}
+    chars = literal_chars(p1) | literal_chars(p2) | set(DIGITS) | {"/", "_", " ", "\n", OTHER, OTHER_W}
     universe = frozenset(chars - set(forbidden))
     a, b = build(p1, universe), build(p2, universe)
     s0 = (a.closure({a.start}), b.closure({b.start}))
@@ -185,7 +198,7 @@ def witness_of_intersection(p1: str, p2: str, forbidden: str = "") -> Optional[s
     while queue:
         (sa, sb), w = queue.pop(0)
         if a.final in sa and b.final in sb:
-            return w.replace(OTHER, "?")
+            return w.replace(OTHER, "?").replace(OTHER_W, "x")
         for ch in order:
             na = a.step(sa, ch)
             if not na:
